@@ -504,6 +504,50 @@ def _integrality_sim(chk):
     return True
 
 
+def _number_function_spelling(chk):
+    """C12.spell: the number-formatting / rounding / math functions evaluated with every integral argument spelled as host int and as float: same result"""
+    from ..libsim import JsonInterp
+    from ..absint import ADict, AList, Sym
+    from ..lib import library_functions
+    libfuncs = {f.name: f for f in library_functions(chk.repo, 'C12.spell')}
+    lib = chk.repo.module('library')
+    it = JsonInterp(chk.repo, lib, 'C12.spell')
+    it.oracles.pop('value_compare', None)          # concrete numbers: the repository's own comparison
+    big = [5, -7, 0, 1000, 123456789012345, 2 ** 53 + 2, 10 ** 15 + 1, -(2 ** 53) - 2, 999999999999999]
+    cases = []
+    for x in big:
+        for d in (0, 2, 3):
+            cases.append(('numberToFixed', [x, d]))
+            cases.append(('mathRound', [x, d]))
+        for fn in ('mathAbs', 'mathFloor', 'mathCeil', 'mathSign', 'stringNew', 'numberToFixed', 'mathRound'):
+            cases.append((fn, [x]))
+        cases.append(('mathMax', [x, 1]))
+        cases.append(('mathMin', [x, 1]))
+        cases.append(('numberToFixed', [x, 2, True]))
+    n = 0
+    for fn, args in cases:
+        lf = libfuncs.get(fn)
+        if lf is None:
+            continue
+        outs = []
+        for spell in (int, float):
+            a = [spell(v) if isinstance(v, int) and not isinstance(v, bool) else v for v in args]
+            n += 1
+            got = it.run(lf.func, [AList(a), ADict({})])
+            if got[0] == 'value' and isinstance(got[1], Sym):
+                raise Unrecognised('C12.spell', f'{fn}({a}) evaluates to the unmodelled value {got[1]!r}', lib.rel)
+            outs.append(got if got[0] == 'value' else ('raise', got[1]))
+        a_int, a_flt = outs
+        same = a_int[0] == a_flt[0] and (a_int[0] == 'raise' or (a_int[1] == a_flt[1] and isinstance(a_int[1], bool) == isinstance(a_flt[1], bool)
+                                                                 and isinstance(a_int[1], str) == isinstance(a_flt[1], str)))
+        if not same:
+            chk.bad('C12.spell', lib, lf.pyname, f'{fn}({", ".join(map(repr, args))})',
+                    f'{fn}({", ".join(map(repr, args))}) gives {a_int[1]!r} when the numbers arrive as host ints and {a_flt[1]!r} when they arrive as floats: one number, two results', node=lf.func)
+            return
+    chk.ok('C12.spell', f'{n} evaluations: numberToFixed / mathRound / mathAbs / mathFloor / mathCeil / mathSign / mathMax / mathMin / stringNew on integral numbers up to 2**53 + 2, each '
+           f'spelled as host int and as float, give the same result', count=n)
+
+
 def _integrality(chk):
     mod = chk.repo.module('value')
     func = mod.func('value_args_validate', 'C12.chk')
@@ -576,6 +620,7 @@ def run(chk):
         chk.guard('C12.chk', _integrality, chk)
     chk.guard('C12.chk', _type_tests, chk)
     chk.guard('C12.spell', _arith_spelling, chk)
+    chk.guard('C12.spell', _number_function_spelling, chk)
     chk.guard('C12.lit', _literals, chk)
     # int and float spellings print alike: value_string (C13.D/C) and value_json (C14.S/N) - shared rules
     from . import c13, c14
@@ -602,7 +647,9 @@ def run(chk):
         if name:
             chk.guard('C13.C', c13.check_cleanup, chk, name)
     # the int / float spellings of indices, counts, sizes, indent, date components: the evaluations of the library against reference models run every number both ways
-    from . import c15, c16
+    from . import c15, c16, c19
+    chk.rule('C19.A', 'shared with C19: dataAggregate on float and int measures (the reducers see the same numbers in both spellings)')
+    chk.guard('C19.A', c19.check_aggregate, chk)
     chk.rule('C15.R', 'shared with C15: array / object / string functions evaluated with indices spelled as floats and as host ints against the reference models')
     chk.guard('C15.R', c15.check_reference_sim, chk)
     chk.rule('C16.M', 'shared with C16: datetimeNew evaluated with components spelled as host ints and as floats')
